@@ -41,7 +41,7 @@ MacroV(name, depth) == V("macro", depth, <<name>>, <<>>)
 
 NoExpr == [t |-> "none"]
 
-MaxMacroDepth == 3        \* 1000 in the implementation; the harness's call graphs recurse without bound either way
+MaxMacroDepth == 6        \* 1000 in the implementation; only unbounded recursion reaches either bound in the generated programs
 
 ----------------------------------------------------------------------------
 (* atoms *)
@@ -127,7 +127,7 @@ Items(v, rev, sorted) ==
 \* copy of its parent. pub: the caller's context merged over the globals.
 InitState(pub) ==
   [env |-> << <<>> >>, pub |-> pub, out |-> <<>>, err |-> "", auto |-> TRUE,
-   cyc |-> <<>>, chg |-> <<>>, depth |-> 0, evs |-> <<>>, macros |-> <<>>, path |-> <<>>]
+   cyc |-> <<>>, chg |-> <<>>, depth |-> 0, evs |-> <<>>, macros |-> <<>>, path |-> <<>>, files |-> <<>>, globals |-> <<>>]
 
 Has(f, x) == x \in DOMAIN f
 Top(st) == st.env[Len(st.env)]
@@ -179,7 +179,7 @@ ApplyDefined(f, v, a) ==
 
 RECURSIVE Eval(_, _), EvalChain(_, _, _, _), Exec(_, _), ExecSeq(_, _, _), ExecItems(_, _, _, _), Loop(_, _, _, _, _),
           CallMacro(_, _, _, _), BindDefaults(_, _, _, _, _), ExecWith(_, _, _, _), FirstOf(_, _, _), EvalList(_, _, _),
-          IfChain(_, _, _), EvalPath(_, _, _)
+          IfChain(_, _, _), EvalPath(_, _, _), EvalPairs(_, _, _, _)
 
 \* result of an evaluation: [v |-> value, st |-> state, safe |-> BOOLEAN]
 \* `safe`: the value needs no escaping when written (macro results, Super, `safe` values from Go, |safe)
@@ -226,9 +226,15 @@ Eval(e, st) ==
                 [] OTHER -> R(Nil, Fail(rb.st, "unimplemented operator"), FALSE)
     [] e.t = "call" ->
          LET f == Lookup(st, e.name) IN
-         IF f.k # "macro" THEN R(Nil, Fail(st, "not a function"), FALSE)
+         IF f.k = "nil" THEN R(Nil, st, FALSE)            \* an unknown name is nil, and nil along the way is the empty value
+         ELSE IF f.k # "macro" THEN R(Nil, Fail(st, "not a function"), FALSE)
          ELSE LET ra == EvalList(e.args, st, <<>>) IN CallMacro(f, ra.v, ra.st, e.name)
     [] OTHER -> R(Nil, Fail(st, "bad expression"), FALSE)
+
+\* name=expr pairs (include ... with): evaluated left to right in the current scope; result: a scope
+EvalPairs(pairs, i, st, acc) ==
+  IF i > Len(pairs) \/ st.err # "" THEN R(acc, st, FALSE)
+  ELSE LET r == Eval(pairs[i].e, st) IN EvalPairs(pairs, i + 1, r.st, (pairs[i].name :> r.v) @@ acc)
 
 EvalList(es, st, acc) ==
   IF es = <<>> \/ st.err # "" THEN R(acc, st, FALSE)
@@ -362,6 +368,27 @@ Exec(n, st) ==
          IF st1.err # "" THEN st1
          ELSE LET r == EvalChain(n.chain, 1, R(Markup(st1.out), st1, FALSE), [st1 EXCEPT !.out = st.out]) IN
               IF r.st.err # "" THEN r.st ELSE Emit(r.st, W(r.v, 0))
+    [] n.t = "include" ->
+         \* the included template is a render of its own: it sees the includer's view (tag-set names over the caller's
+         \* context) plus the pairs, or the pairs alone with `only`; nothing it binds survives; per-render tag state is its own
+         IF ~Has(st.files, n.name) THEN Fail(st, "include: no such template")
+         ELSE LET rp == EvalPairs(n.pairs, 1, st, <<>>) IN
+              IF rp.st.err # "" THEN rp.st
+              ELSE \* (the set's globals are visible in every template of the set, also under `only`)
+                   LET view == IF n.only THEN rp.v @@ st.globals ELSE rp.v @@ Top(st) @@ st.pub IN
+                   LET sub == [InitState(view) EXCEPT !.files = st.files, !.globals = st.globals, !.auto = TRUE, !.path = <<"file", n.name>>,
+                                                     !.evs = Append(rp.st.evs, <<"ExecBegin">>)] IN
+                   LET st1 == ExecSeq(st.files[n.name], sub, 0) IN
+                   IF st1.err # "" THEN [rp.st EXCEPT !.err = st1.err, !.evs = st1.evs]
+                   ELSE [rp.st EXCEPT !.out = @ \o st1.out, !.evs = st1.evs]
+    [] n.t = "import" ->
+         \* binds an exported macro of another template under a (possibly different) name, in the current scope
+         IF ~Has(st.files, n.file) THEN Fail(st, "import: no such template")
+         ELSE LET defs == {i \in 1..Len(st.files[n.file]) : st.files[n.file][i].t = "macro" /\ st.files[n.file][i].name = n.name
+                                                            /\ st.files[n.file][i].export} IN
+              IF defs = {} THEN Fail(st, "import: macro not exported")
+              ELSE LET d == st.files[n.file][CHOOSE i \in defs : TRUE] IN
+                   Bind([st EXCEPT !.macros = (n.as :> d) @@ @], n.as, MacroV(n.as, Len(st.env)))
     [] OTHER -> Fail(st, "unknown node")
 
 \* a body is executed child by child; st.path identifies the tag occurrence being executed (branch tag b, then the index),
@@ -375,6 +402,18 @@ ExecSeq(ns, st, b) ==
 
 \* one render of a program (a tuple of nodes) against a public context
 Render(prog, pub) == ExecSeq(prog, InitState(pub), 0)
+RenderG(prog, pub, files, globals) == ExecSeq(prog, [InitState(pub) EXCEPT !.files = files, !.globals = globals, !.evs = <<<<"ExecBegin">>>>], 0)
+RenderF(prog, pub, files) == RenderG(prog, pub, files, <<>>)
+
+\* Execute(ctx) on a compiled template of a set with Globals: context keys must be identifiers and must not clash with
+\* an exported macro; the template sees ctx over globals
+BadKeys == {"bad-key", "sp ace", "", "x.y"}
+ExportedMacros(prog) == {prog[i].name : i \in {j \in 1..Len(prog) : prog[j].t = "macro" /\ prog[j].export}}
+ExecuteAPI(prog, ctx, globals, files) ==
+  LET pub == ctx @@ globals IN
+  IF (DOMAIN pub) \cap BadKeys # {} THEN [InitState(pub) EXCEPT !.err = "context key is not an identifier"]
+  ELSE IF (DOMAIN pub) \cap ExportedMacros(prog) # {} THEN [InitState(pub) EXCEPT !.err = "context key clashes with macro"]
+  ELSE RenderG(prog, pub, files, globals)
 
 ----------------------------------------------------------------------------
 (* structural properties of the semantics, evaluated on a finished render *)
